@@ -20,6 +20,15 @@
 //     interfaces message.Message and autogen.isMessage_Message.
 //  5. has_recover_* / count_*: shape of EncodeTo / DecodeFrom of both codecs.
 //  6. size_gate_*: shape of validateMessageSize and its use in Transport.Read.
+//  7. dur_conv_w2p / dur_conv_p2w: for every field of type time.Duration of a
+//     wire struct, the conversion applied to it in each direction - recognised
+//     ONLY when it is literally one of the known expressions
+//     (uint32(x.F.Seconds()), uint32(x.F.Milliseconds()), uint64(x.F), int64(x.F);
+//     time.Duration(p.F) * time.Second, ... * time.Millisecond, time.Duration(p.F))
+//     standing directly as the value of a composite-literal key.  Anything else
+//     (a helper call, float arithmetic, a temporary) is emitted as
+//     "Unknown: <source>" (or "Missing"), which no conversion of the Coq model
+//     is called, so the obligation source_facts fails.
 //
 // encoding/convert is type-checked with go/types; its imports (including the
 // generated protobuf package) are type-checked from source by the "source"
@@ -605,6 +614,8 @@ func main() {
 		emitAssoc(side.prefix+"_reads", reads.entries())
 		emitAssoc(side.prefix+"_writes", writes.entries())
 	}
+	emitDur("dur_conv_w2p", c.durW2P(c.files["wire_to_proto.go"]))
+	emitDur("dur_conv_p2w", c.durP2W(c.files["proto_to_wire.go"]))
 	emitList("w2p_cases", c.cases(c.files["wire_to_proto.go"], "WireToProto"))
 	emitList("p2w_cases", c.cases(c.files["proto_to_wire.go"], "ProtoToWire"))
 	emitList("message_impls", implementers(c.deps["message"], "isMessage"))
